@@ -1523,6 +1523,45 @@ class Interp:
         return out
 
     def _comp(self, e, s, kind):
+        # closed iterable (single generator): unroll with the filters evaluated per element
+        if len(e.generators) == 1 and not isinstance(e, ast.DictComp):
+            gen = e.generators[0]
+            its = self.eval(gen.iter, s)
+            if len(its) == 1 and isinstance(its[0][0], ListV) and not its[0][0].open and len(its[0][0].items) <= 64:
+                itv, st0 = its[0]
+                states: list[tuple[list, State]] = [([], st0)]
+                for item in itv.items:
+                    nxt = []
+                    for acc, st in states:
+                        saved = {n.id: st.env.get(n.id) for n in ast.walk(gen.target) if isinstance(n, ast.Name)}
+                        self.assign(gen.target, item, st)
+                        branches = [(True, st)]
+                        for c in gen.ifs:
+                            nb = []
+                            for keep, bst in branches:
+                                if not keep:
+                                    nb.append((False, bst))
+                                else:
+                                    nb.extend(self.cond(c, bst))
+                            branches = nb
+                        for keep, bst in branches:
+                            if keep:
+                                for v, vst in self.eval(e.elt, bst):
+                                    nxt.append((acc + [v], vst))
+                            else:
+                                nxt.append((acc, bst))
+                    states = nxt
+                    if len(states) > 256:
+                        break
+                else:
+                    res = []
+                    for acc, st in states:
+                        for n in ast.walk(gen.target):
+                            if isinstance(n, ast.Name):
+                                st.env.pop(n.id, None)
+                        items = tuple(dict.fromkeys(acc)) if kind == "set" else tuple(acc)
+                        res.append((ListV(items, False, kind), st))
+                    return res
         # generic element: evaluate element expression once with comprehension targets bound to element symbols
         st = s.clone()
         conds = []
@@ -1715,6 +1754,19 @@ class Interp:
                         s.env[path] = ListV(tuple(dict.fromkeys(items)), True, recv.kind)
                     self.effect(s, "mutate", f"{path or '?'}.{meth}", args, kws, e)
                     return [(Const(None), s)]
+                if meth == "pop" and not recv.open and recv.items and (not args or (isinstance(args[0], Const) and isinstance(args[0].v, int))):
+                    idx = args[0].v if args else -1
+                    try:
+                        item = recv.items[idx]
+                        rest = list(recv.items)
+                        rest.pop(idx)
+                        if path:
+                            s.env[path] = ListV(tuple(rest), False, recv.kind)
+                        self.effect(s, "mutate", f"{path or '?'}.pop", args, kws, e)
+                        return [(item, s)]
+                    except IndexError:
+                        s.status, s.node, s.exc, s.value = "raise", e, "IndexError", Const("IndexError")
+                        return [(Top(), s)]
                 if meth in ("pop", "remove", "clear", "insert", "index"):
                     self.effect(s, "mutate", f"{path or '?'}.{meth}", args, kws, e)
                     if path and meth != "index":
